@@ -213,6 +213,9 @@ pub fn install_panic_hook() {
         let scripted = msg.starts_with("scripted panic") || msg.starts_with("one of the tasks panicked");
         if !scripted && !QUIET.with(|q| *q.borrow()) {
             default(info);
+        } else if !scripted && std::env::var("VERIF_LOUD_PANICS").is_ok() {
+            // diagnostics: one line per guarded panic
+            eprintln!("guarded panic at {loc}: {msg}");
         }
     }));
 }
